@@ -467,3 +467,425 @@ Proof.
       * constructor; [auto|constructor].
       * constructor; auto.
 Qed.
+
+(* ------------------------------------------------------------------ *)
+(* 2d. scrubRow / scrubFam *)
+Definition nonempty_col (c : column) : bool := match col_cells c with [] => false | _ => true end.
+Definition nonempty_fam (f : family) : bool := match fam_cols f with [] => false | _ => true end.
+
+Lemma insert_col_in c l x : In x (insert_col c l) <-> x = c \/ In x l.
+Proof.
+  induction l as [|d r IH]; cbn.
+  - intuition.
+  - destruct (lex_ltb (col_q c) (col_q d)); cbn; [intuition|]. rewrite IH. intuition.
+Qed.
+
+Lemma sort_cols_in l x : In x (sort_cols l) <-> In x l.
+Proof.
+  induction l as [|c r IH]; cbn; [tauto|]. rewrite insert_col_in, IH. intuition.
+Qed.
+
+Lemma insert_col_nonempty c l : insert_col c l <> [].
+Proof. destruct l as [|d r]; cbn; [discriminate|]. destruct (lex_ltb _ _); discriminate. Qed.
+
+Lemma sort_cols_nil l : sort_cols l = [] <-> l = [].
+Proof.
+  destruct l as [|c r]; cbn; [tauto|]. split; [|discriminate].
+  intros H. exfalso. eapply insert_col_nonempty; eauto.
+Qed.
+
+Lemma insert_col_names_in c l q : In q (map col_q (insert_col c l)) <-> q = col_q c \/ In q (map col_q l).
+Proof.
+  rewrite !in_map_iff. split.
+  - intros [x [Hx Hin]]. apply insert_col_in in Hin. destruct Hin as [->|Hin]; [left; auto|].
+    right. exists x. auto.
+  - intros [->|[x [Hx Hin]]].
+    + exists c. split; auto. apply insert_col_in. auto.
+    + exists x. split; auto. apply insert_col_in. auto.
+Qed.
+
+Lemma sort_cols_names_in l q : In q (map col_q (sort_cols l)) <-> In q (map col_q l).
+Proof.
+  rewrite !in_map_iff. split; intros [x [Hx Hin]]; exists x; split; auto; apply sort_cols_in; auto.
+Qed.
+
+Lemma insert_col_nodup c l : NoDup (map col_q l) -> ~ In (col_q c) (map col_q l) ->
+  NoDup (map col_q (insert_col c l)).
+Proof.
+  induction l as [|d r IH]; intros Hn Hc; cbn.
+  - constructor; [auto|constructor].
+  - destruct (lex_ltb (col_q c) (col_q d)); cbn.
+    + constructor; auto.
+    + inversion Hn; subst. constructor.
+      * rewrite insert_col_names_in. intros [H|H]; [|auto]. apply Hc. left. auto.
+      * apply IH; auto. intros H. apply Hc. right. exact H.
+Qed.
+
+Lemma sort_cols_nodup l : NoDup (map col_q l) -> NoDup (map col_q (sort_cols l)).
+Proof.
+  induction l as [|c r IH]; intros Hn; cbn; [constructor|].
+  inversion Hn; subst. apply insert_col_nodup; auto. rewrite sort_cols_names_in. auto.
+Qed.
+
+Lemma get_column_insert_col c l q : ~ In (col_q c) (map col_q l) ->
+  get_column (insert_col c l) q = if beqb (col_q c) q then Some c else get_column l q.
+Proof.
+  induction l as [|d r IH]; intros Hc; cbn; auto.
+  destruct (lex_ltb (col_q c) (col_q d)); cbn; auto.
+  rewrite IH by (intros H; apply Hc; right; exact H).
+  destruct (beqb (col_q d) q) eqn:Ed; auto.
+  destruct (beqb (col_q c) q) eqn:Ec; auto.
+  apply beqb_eq in Ed. apply beqb_eq in Ec. exfalso. apply Hc. left. congruence.
+Qed.
+
+Lemma get_column_sort_cols l q : NoDup (map col_q l) -> get_column (sort_cols l) q = get_column l q.
+Proof.
+  induction l as [|c r IH]; intros Hn; cbn; auto.
+  inversion Hn; subst. rewrite get_column_insert_col by (rewrite sort_cols_names_in; auto).
+  fold (sort_cols r). rewrite IH by auto. reflexivity.
+Qed.
+
+Lemma lex_ltb_false_lt a b : lex_ltb a b = false -> a <> b -> lex_lt b a.
+Proof.
+  unfold lex_ltb, lex_lt. intros H Hne. rewrite (lex_antisym a b).
+  destruct (lex_cmp a b) eqn:E; try discriminate; auto.
+  apply lex_eq in E. contradiction.
+Qed.
+
+Lemma insert_col_qsorted c l : qsorted l -> ~ In (col_q c) (map col_q l) -> qsorted (insert_col c l).
+Proof.
+  induction l as [|d r IH]; intros Hs Hc; cbn.
+  - split; auto. intros x [].
+  - destruct Hs as [Hd Hr]. destruct (lex_ltb (col_q c) (col_q d)) eqn:E.
+    + split; [|split; auto]. assert (Hlt : lex_lt (col_q c) (col_q d)).
+      { unfold lex_ltb in E. unfold lex_lt. destruct (lex_cmp (col_q c) (col_q d)); auto; discriminate. }
+      intros x [<-|Hx]; auto. eapply lex_lt_trans; eauto.
+    + split.
+      * intros x Hx. apply insert_col_in in Hx. destruct Hx as [->|Hx]; auto.
+        apply lex_ltb_false_lt; auto. intros Heq. apply Hc. left. auto.
+      * apply IH; auto. intros H. apply Hc. right. exact H.
+Qed.
+
+Lemma sort_cols_qsorted l : NoDup (map col_q l) -> qsorted (sort_cols l).
+Proof.
+  induction l as [|c r IH]; intros Hn; cbn; [exact I|].
+  inversion Hn; subst. apply insert_col_qsorted; auto. rewrite sort_cols_names_in. auto.
+Qed.
+
+Lemma nodup_map_filter {A B} (g : A -> B) p l : NoDup (map g l) -> NoDup (map g (filter p l)).
+Proof.
+  induction l as [|a l IH]; intros Hn; cbn; auto.
+  inversion Hn; subst. destruct (p a); cbn; auto. constructor; auto.
+  rewrite in_map_iff in *. intros [x [Hx Hin]]. apply H1. exists x. split; auto.
+  apply filter_In in Hin. tauto.
+Qed.
+
+Lemma get_column_filter p l q : NoDup (map col_q l) ->
+  get_column (filter p l) q = match get_column l q with Some c => if p c then Some c else None | None => None end.
+Proof.
+  induction l as [|c r IH]; intros Hn; cbn; auto.
+  inversion Hn; subst. destruct (beqb (col_q c) q) eqn:E.
+  - destruct (p c) eqn:Ep; cbn; [rewrite E; reflexivity|].
+    rewrite IH by auto. apply beqb_eq in E. subst q.
+    destruct (get_column r (col_q c)) eqn:Eg; auto.
+    apply get_column_some in Eg. destruct Eg as [Hq Hin]. exfalso. apply H1.
+    rewrite <- Hq. apply in_map. exact Hin.
+  - destruct (p c); cbn; [rewrite E|]; apply IH; auto.
+Qed.
+
+Lemma get_family_filter p l n : NoDup (map fam_name l) ->
+  get_family (filter p l) n = match get_family l n with Some f => if p f then Some f else None | None => None end.
+Proof.
+  induction l as [|c r IH]; intros Hn; cbn; auto.
+  inversion Hn; subst. destruct (beqb (fam_name c) n) eqn:E.
+  - destruct (p c) eqn:Ep; cbn; [rewrite E; reflexivity|].
+    rewrite IH by auto. apply beqb_eq in E. subst n.
+    destruct (get_family r (fam_name c)) eqn:Eg; auto.
+    apply get_family_some in Eg. destruct Eg as [Hq Hin]. exfalso. apply H1.
+    rewrite <- Hq. apply in_map. exact Hin.
+  - destruct (p c); cbn; [rewrite E|]; apply IH; auto.
+Qed.
+
+Lemma get_family_map_scrub l n : get_family (map scrub_fam l) n = option_map scrub_fam (get_family l n).
+Proof.
+  induction l as [|f r IH]; cbn; auto. destruct (beqb (fam_name f) n); auto.
+Qed.
+
+Lemma map_name_scrub l : map fam_name (map scrub_fam l) = map fam_name l.
+Proof. rewrite map_map. reflexivity. Qed.
+
+(* content of one scrubbed family *)
+Lemma scrub_fam_lookup f q t : NoDup (map col_q (fam_cols f)) ->
+  match get_column (fam_cols (scrub_fam f)) q with Some c => cell_lookup (col_cells c) t | None => None end
+  = match get_column (fam_cols f) q with Some c => cell_lookup (col_cells c) t | None => None end.
+Proof.
+  intros Hn. unfold scrub_fam. cbn [fam_cols].
+  rewrite get_column_sort_cols by (apply nodup_map_filter; exact Hn).
+  rewrite get_column_filter by exact Hn.
+  destruct (get_column (fam_cols f) q) as [c|]; auto.
+  destruct (col_cells c) eqn:E; cbn; auto. rewrite E. reflexivity.
+Qed.
+
+Lemma scrub_fam_ok f : fam_ok f -> fam_ok (scrub_fam f).
+Proof.
+  intros [Hn Hc]. unfold scrub_fam. split; cbn [fam_cols].
+  - apply sort_cols_nodup. apply nodup_map_filter. exact Hn.
+  - rewrite Forall_forall in *. intros c Hin. rewrite sort_cols_in in Hin. apply filter_In in Hin. apply Hc. tauto.
+Qed.
+
+(* the content a reader sees after scrubbing: cells of families unknown to the table vanish,
+   everything else is unchanged *)
+Theorem scrub_content : forall tf fs, fams_ok fs -> forall f q t,
+  abs_fams (scrub_fams tf fs) f q t = if known_family tf f then abs_fams fs f q t else None.
+Proof.
+  intros tf fs [Hn Hf] f q t. unfold abs_fams, scrub_fams.
+  rewrite get_family_filter.
+  2:{ rewrite map_name_scrub. apply nodup_map_filter. exact Hn. }
+  rewrite get_family_map_scrub, get_family_filter by exact Hn.
+  destruct (get_family fs f) as [fm|] eqn:Ef; cbn [option_map].
+  - apply get_family_some in Ef. destruct Ef as [Hname Hin]. rewrite Hname.
+    destruct (known_family tf f); cbn [option_map]; auto.
+    rewrite Forall_forall in Hf. destruct (Hf fm Hin) as [Hcn _].
+    destruct (fam_cols (scrub_fam fm)) eqn:Es.
+    + pose proof (scrub_fam_lookup fm q t Hcn) as H. rewrite Es in H. cbn in H. rewrite <- H. reflexivity.
+    + apply scrub_fam_lookup. exact Hcn.
+  - destruct (known_family tf f); reflexivity.
+Qed.
+
+Lemma all_known_unknown_none tf fs f q t : all_known tf fs -> known_family tf f = false -> abs_fams fs f q t = None.
+Proof.
+  intros Hk Hf. unfold abs_fams. destruct (get_family fs f) as [fm|] eqn:E; auto.
+  apply get_family_some in E. destruct E as [Hn Hin]. unfold all_known in Hk. rewrite Forall_forall in Hk.
+  specialize (Hk fm Hin). congruence.
+Qed.
+
+Theorem scrub_stored_ok : forall tf fs, fams_ok fs -> stored_ok tf (scrub_fams tf fs).
+Proof.
+  intros tf fs [Hn Hf]. unfold scrub_fams. split; [split|].
+  - apply nodup_map_filter. rewrite map_name_scrub. apply nodup_map_filter. exact Hn.
+  - rewrite Forall_forall in *. intros f Hin. apply filter_In in Hin. destruct Hin as [Hin _].
+    apply in_map_iff in Hin. destruct Hin as [g [<- Hg]]. apply filter_In in Hg.
+    apply scrub_fam_ok. apply Hf. tauto.
+  - rewrite Forall_forall in *. intros f Hin. apply filter_In in Hin. destruct Hin as [Hin Hne].
+    apply in_map_iff in Hin. destruct Hin as [g [<- Hg]]. apply filter_In in Hg. destruct Hg as [Hg Hk].
+    destruct (Hf g Hg) as [Hcn Hcf].
+    split; [exact Hk|]. split; [destruct (fam_cols (scrub_fam g)); [discriminate|discriminate]|].
+    unfold scrub_fam. cbn [fam_cols]. split.
+    + rewrite Forall_forall. intros c Hc. rewrite sort_cols_in in Hc. apply filter_In in Hc.
+      destruct Hc as [_ Hc]. destruct (col_cells c); [discriminate|discriminate].
+    + apply sort_cols_qsorted. apply nodup_map_filter. exact Hcn.
+Qed.
+
+(* 2d as stated: for rows whose families are all known scrubbing does not change the content *)
+Theorem scrub_preserves_content : forall tf fs, fams_ok fs -> all_known tf fs ->
+  cm_eq (abs_fams (scrub_fams tf fs)) (abs_fams fs) /\ stored_ok tf (scrub_fams tf fs).
+Proof.
+  intros tf fs Hok Hk. split; [|apply scrub_stored_ok; exact Hok].
+  intros f q t. rewrite scrub_content by exact Hok.
+  destruct (known_family tf f) eqn:E; auto. symmetry. eapply all_known_unknown_none; eauto.
+Qed.
+
+Lemma scrub_fam_cols_nil f : fam_cols (scrub_fam f) = [] <-> forallb (fun c => negb (nonempty_col c)) (fam_cols f) = true.
+Proof.
+  unfold scrub_fam. cbn [fam_cols]. rewrite sort_cols_nil. fold nonempty_col.
+  induction (fam_cols f) as [|c r IH]; cbn; [tauto|].
+  destruct (nonempty_col c); cbn; [split; discriminate|exact IH].
+Qed.
+
+Theorem scrub_empty_iff : forall tf fs, all_known tf fs ->
+  (scrub_fams tf fs = [] <-> is_empty_fams fs = true).
+Proof.
+  intros tf fs Hk. unfold scrub_fams, is_empty_fams.
+  rewrite (filter_all (fun f => known_family tf (fam_name f)) fs).
+  2:{ unfold all_known in Hk. rewrite Forall_forall in Hk. exact Hk. }
+  clear Hk. induction fs as [|f r IH]; cbn [map filter forallb]; [tauto|].
+  assert (Hf : forallb (fun c => match col_cells c with [] => true | _ :: _ => false end) (fam_cols f)
+               = forallb (fun c => negb (nonempty_col c)) (fam_cols f)).
+  { clear. induction (fam_cols f) as [|c l IHl]; cbn [forallb]; auto. rewrite IHl. f_equal.
+    unfold nonempty_col. destruct (col_cells c); reflexivity. }
+  rewrite Hf. destruct (fam_cols (scrub_fam f)) eqn:E.
+  - apply scrub_fam_cols_nil in E. rewrite E. cbn [andb]. exact IH.
+  - split; [discriminate|]. intros H. apply andb_prop in H. destruct H as [H _].
+    apply scrub_fam_cols_nil in H. congruence.
+Qed.
+
+(* "has no cell" in terms of content *)
+Theorem is_empty_content : forall fs, fams_ok fs ->
+  (is_empty_fams fs = true <-> forall f q t, abs_fams fs f q t = None).
+Proof.
+  intros fs Hok. unfold is_empty_fams. rewrite forallb_forall. split.
+  - intros H f q t. unfold abs_fams. destruct (get_family fs f) as [fm|] eqn:Ef; auto.
+    apply get_family_some in Ef. destruct Ef as [_ Hin]. specialize (H fm Hin).
+    rewrite forallb_forall in H. destruct (get_column (fam_cols fm) q) as [c|] eqn:Ec; auto.
+    apply get_column_some in Ec. destruct Ec as [_ Hc]. specialize (H c Hc).
+    destruct (col_cells c); [reflexivity|discriminate].
+  - intros H fm Hin. rewrite forallb_forall. intros c Hc.
+    destruct Hok as [Hn Hf]. rewrite Forall_forall in Hf. destruct (Hf fm Hin) as [Hcn _].
+    assert (Hgf : get_family fs (fam_name fm) = Some fm).
+    { clear - Hn Hin. induction fs as [|g r IH]; [destruct Hin|]. cbn. inversion Hn; subst.
+      destruct Hin as [->|Hin]; [rewrite beqb_refl; reflexivity|].
+      destruct (beqb (fam_name g) (fam_name fm)) eqn:E; auto.
+      apply beqb_eq in E. exfalso. apply H1. rewrite E. apply in_map. exact Hin. }
+    assert (Hgc : get_column (fam_cols fm) (col_q c) = Some c).
+    { clear - Hcn Hc. induction (fam_cols fm) as [|g r IH]; [destruct Hc|]. cbn. inversion Hcn; subst.
+      destruct Hc as [->|Hc]; [rewrite beqb_refl; reflexivity|].
+      destruct (beqb (col_q g) (col_q c)) eqn:E; auto.
+      apply beqb_eq in E. exfalso. apply H1. rewrite E. apply in_map. exact Hc. }
+    destruct (col_cells c) as [|d ds] eqn:Ecs; auto.
+    specialize (H (fam_name fm) (col_q c) (c_ts d)). unfold abs_fams in H.
+    rewrite Hgf, Hgc, Ecs in H. cbn in H. rewrite Z.eqb_refl in H. discriminate.
+Qed.
+
+(* ------------------------------------------------------------------ *)
+(* association lists, tables, updateRow *)
+Section AListMore.
+  Context {V : Type}.
+  Implicit Types l : list (bytes * V).
+
+  Lemma alookup_in k l v : alookup k l = Some v -> In (k, v) l.
+  Proof.
+    induction l as [|[k0 v0] r IH]; cbn; [discriminate|].
+    destruct (beqb k k0) eqn:E.
+    - intros H. injection H as ->. apply beqb_eq in E. subst. left. reflexivity.
+    - intros H. right. apply IH. exact H.
+  Qed.
+
+  Lemma ainsert_in k v l p : In p (ainsert k v l) -> p = (k, v) \/ In p l.
+  Proof.
+    induction l as [|[k0 v0] r IH]; cbn.
+    - intros [<-|[]]. auto.
+    - destruct (lex_cmp k k0); cbn.
+      + intros [<-|H]; auto.
+      + intros [<-|[<-|H]]; auto.
+      + intros [<-|H]; auto. destruct (IH H); auto.
+  Qed.
+
+  Lemma lex_lt_neq a b : lex_lt a b -> a <> b.
+  Proof. unfold lex_lt. intros H ->. rewrite lex_refl in H. discriminate. Qed.
+
+  Lemma ainsert_in_sorted k v l p : asorted l -> In p (ainsert k v l) -> p = (k, v) \/ (In p l /\ fst p <> k).
+  Proof.
+    induction l as [|[k0 v0] r IH]; intros Hs; cbn.
+    - intros [<-|[]]. auto.
+    - destruct (lex_cmp k k0) eqn:E; cbn.
+      + apply lex_eq in E. subst k0. intros [<-|H]; auto. right. split; auto.
+        destruct p as [kp vp]. cbn. pose proof (asorted_head_lt _ _ _ Hs kp vp H) as Hlt.
+        intros ->. eapply lex_lt_neq; eauto.
+      + intros [<-|[<-|H]]; auto.
+        * right. split; auto. cbn. intros ->. eapply lex_lt_neq; eauto.
+        * right. split; auto. destruct p as [kp vp]. cbn.
+          pose proof (asorted_head_lt _ _ _ Hs kp vp H) as Hlt. intros ->.
+          assert (Hkk : lex_lt k k) by (eapply lex_lt_trans; eauto). eapply lex_lt_neq; eauto.
+      + intros [<-|H].
+        * right. split; auto. cbn. intros ->. rewrite lex_refl in E. discriminate.
+        * destruct (IH (asorted_tail _ _ Hs) H) as [->|[Hin Hne]]; auto.
+  Qed.
+
+  Lemma aremove_in_sorted k l p : asorted l -> In p (aremove k l) -> In p l /\ fst p <> k.
+  Proof.
+    induction l as [|[k0 v0] r IH]; intros Hs; cbn; [tauto|].
+    destruct (beqb k k0) eqn:E.
+    - apply beqb_eq in E. subst k0. intros H. split; auto. destruct p as [kp vp]. cbn.
+      pose proof (asorted_head_lt _ _ _ Hs kp vp H) as Hlt. intros ->. eapply lex_lt_neq; eauto.
+    - intros [<-|H].
+      + split; auto. cbn. apply beqb_neq in E. congruence.
+      + destruct (IH (asorted_tail _ _ Hs) H). auto.
+  Qed.
+
+  Lemma ainsert_forall (P : bytes * V -> Prop) k v l : Forall P l -> P (k, v) -> Forall P (ainsert k v l).
+  Proof.
+    intros Hl Hp. rewrite Forall_forall in *. intros p Hin. apply ainsert_in in Hin.
+    destruct Hin as [->|Hin]; auto.
+  Qed.
+
+  Lemma aremove_forall (P : bytes * V -> Prop) k l : Forall P l -> Forall P (aremove k l).
+  Proof.
+    intros Hl. rewrite Forall_forall in *. intros p Hin. apply aremove_in in Hin. auto.
+  Qed.
+End AListMore.
+
+Lemma stored_ok_nil tf : stored_ok tf [].
+Proof. split; [apply fams_ok_nil|constructor]. Qed.
+
+Lemma table_ok_get_row t key : table_ok t -> stored_ok (t_fams t) (get_row t key).
+Proof.
+  intros [_ Hr]. unfold get_row. destruct (alookup key (t_rows t)) as [fs|] eqn:E; [|apply stored_ok_nil].
+  apply alookup_in in E. rewrite Forall_forall in Hr. apply (Hr _ E).
+Qed.
+
+Lemma table_ok_get_row_fams t key : table_ok t -> fams_ok (get_row t key).
+Proof. intros H. apply (table_ok_get_row t key H). Qed.
+
+Lemma stored_all_known tf fs : stored_ok tf fs -> all_known tf fs.
+Proof.
+  intros [_ H]. unfold all_known. rewrite Forall_forall in *. intros f Hf. apply (H f Hf).
+Qed.
+
+Lemma update_row_fams t key fs : t_fams (update_row t key fs) = t_fams t.
+Proof. unfold update_row. destruct (scrub_fams (t_fams t) fs); reflexivity. Qed.
+
+Theorem update_row_ok : forall t key fs, table_ok t -> fams_ok fs -> table_ok (update_row t key fs).
+Proof.
+  intros t key fs [Hs Hr] Hok. unfold update_row.
+  pose proof (scrub_stored_ok (t_fams t) fs Hok) as Hst.
+  destruct (scrub_fams (t_fams t) fs) as [|f r] eqn:E; split; cbn [t_rows t_fams].
+  - apply aremove_sorted. exact Hs.
+  - apply aremove_forall. exact Hr.
+  - apply ainsert_sorted. exact Hs.
+  - apply ainsert_forall; auto. cbn. split; [exact Hst|discriminate].
+Qed.
+
+Theorem get_row_update_same : forall t key fs, asorted (t_rows t) ->
+  get_row (update_row t key fs) key = scrub_fams (t_fams t) fs.
+Proof.
+  intros t key fs Hs. unfold update_row, get_row.
+  destruct (scrub_fams (t_fams t) fs) as [|f r]; cbn [t_rows].
+  - rewrite alookup_aremove_same by exact Hs. reflexivity.
+  - rewrite alookup_ainsert_same. reflexivity.
+Qed.
+
+Theorem lookup_update_other : forall t key fs k, k <> key ->
+  alookup k (t_rows (update_row t key fs)) = alookup k (t_rows t).
+Proof.
+  intros t key fs k Hne. unfold update_row.
+  destruct (scrub_fams (t_fams t) fs) as [|f r]; cbn [t_rows].
+  - apply alookup_aremove_other. exact Hne.
+  - apply alookup_ainsert_other. exact Hne.
+Qed.
+
+Lemma server_ok_lookup s n t : server_ok s -> alookup n s = Some t -> table_ok t.
+Proof.
+  intros Hs H. apply alookup_in in H. unfold server_ok in Hs. rewrite Forall_forall in Hs. apply (Hs _ H).
+Qed.
+
+Lemma set_table_ok s n t : server_ok s -> table_ok t -> server_ok (set_table s n t).
+Proof. intros Hs Ht. unfold set_table, server_ok. apply ainsert_forall; auto. Qed.
+
+Lemma server_ok_nil : server_ok [].
+Proof. constructor. Qed.
+
+(* boolean checkers for the examples *)
+Fixpoint nodupb (l : list bytes) : bool :=
+  match l with [] => true | x :: r => negb (existsb (beqb x) r) && nodupb r end.
+
+Lemma nodupb_sound l : nodupb l = true -> NoDup l.
+Proof.
+  induction l as [|x r IH]; cbn; [constructor|]. intros H. apply andb_prop in H. destruct H as [H1 H2].
+  constructor; auto. intros Hin. rewrite negb_true_iff in H1.
+  assert (existsb (beqb x) r = true) by (apply existsb_exists; exists x; split; auto; apply beqb_refl).
+  congruence.
+Qed.
+
+Definition fams_okb (fs : list family) : bool :=
+  nodupb (map fam_name fs)
+  && forallb (fun f => nodupb (map col_q (fam_cols f)) && forallb (fun c => descb (col_cells c)) (fam_cols f)) fs.
+
+Lemma fams_okb_sound fs : fams_okb fs = true -> fams_ok fs.
+Proof.
+  unfold fams_okb. intros H. apply andb_prop in H. destruct H as [H1 H2]. split.
+  - apply nodupb_sound. exact H1.
+  - rewrite Forall_forall. rewrite forallb_forall in H2. intros f Hf. specialize (H2 f Hf).
+    apply andb_prop in H2. destruct H2 as [H3 H4]. split.
+    + apply nodupb_sound. exact H3.
+    + rewrite Forall_forall. rewrite forallb_forall in H4. intros c Hc. apply descb_sound. auto.
+Qed.
